@@ -670,7 +670,8 @@ def fuzz_one(data):
     # path arguments outside the definite Reference Path grammar (C12's stated domain) are the path library's business: it reads e.g. '$.ob]j' as '$.obj'
     import re
     # (a path glued to a string literal, as in $.s',;', is read by the library as the path in front of the quote: same leniency, same exclusion)
-    for tok in re.findall(r"\$[^\s,()]*", re.sub(r"'(?:\\.|[^'\\])*'", "''", expr)):
+    # (an argument is everything up to the next comma or parenthesis: '$ \\#2' is one argument, and no Reference Path - the library's normaliser then trips over its own '#n' placeholders)
+    for tok in (t.strip() for t in re.findall(r"\$[^,()]*", re.sub(r"'(?:\\.|[^'\\])*'", "''", expr))):
         if not re.fullmatch(r"\$\$?(?:\.[A-Za-z_][A-Za-z0-9_]*|\[\d+\])*", tok):
             return None
     try:
